@@ -8,7 +8,7 @@ Exhaustive core: every column of 1..4 subsets over {missing, 0..2^w-2} for width
 templates stored both ways."""
 import itertools
 
-from vlib import runner, sut, std, encutil
+from vlib import runner, sut, std, encutil, fuzz
 from vlib.compare import first_value_diff
 from vlib.runner import Outcome, Report, Reject
 from gen import messages as gmsg, pool as gpool
@@ -301,6 +301,14 @@ def check_pair(pair):
     return out
 
 
+# ---- coverage-guided stage: the same generator and oracle, decisions taken from fuzzer bytes (vlib.fuzz) ----
+def _fuzz_gen(ch):
+    return gen_pair(ch, 'quick')
+
+
+fuzz_case = fuzz.structured_target(_fuzz_gen, check_pair)
+
+
 def run(tier, seed):
     rep = Report(PID, tier, seed, 'exploration')
     rep.rule = ('exhaustive: all columns of 1..%d subsets over {missing, 0..2^w-2} for w in 1..4, numeric (201-narrowed) '
@@ -333,6 +341,7 @@ def run(tier, seed):
     n = 1500 if tier == 'quick' else 40000
     runner.run_generated(rep, lambda ch: gen_pair(ch, tier), check_pair, n, workers,
                          shrink_s=20 if tier == 'quick' else 120)
+    fuzz.run_structured(rep, 'checks.c05', _fuzz_gen, tier)
     return rep.finish(SIGNATURES)
 
 
